@@ -42,6 +42,10 @@ def enumerate_cases(tier, name="convert-mc"):
                      kinds=["P", "O", "X"], rot=t["rot"]))
     jobs.append(dict(lens=t["lens"], shard=[t["lens"][0]], maxops=t["maxops"], unnamed=t["unnamed"],
                      kinds=["H"], rot=t["rot"]))
+    jobs.append(dict(lens=t["lens"], shard=[t["lens"][0]], maxops=t["maxops"], unnamed=t["unnamed"],
+                     kinds=["N"], rot=t["rot"]))
+    jobs.append(dict(lens=t["lens"], shard=[t["lens"][0]], maxops=t["maxops"], unnamed=t["unnamed"],
+                     kinds=["T"], rot=t["rot"]))
 
     def one(i_par):
         i, par = i_par
@@ -150,9 +154,12 @@ def _name(x):
     return x if isinstance(x, str) else str(x.name)
 
 
-def run_doc(ver, lines):
+def run_doc(ver, lines, live=None):
     """Everything gfapy does with one document.  Returns the raw log:
-    texts only (lists of written lines) and result classes."""
+    texts only (lists of written lines) and result classes.
+    live = None: every section works on a Gfa freshly parsed from the text;
+    live = a Gfa object (histories): every section works on that object, whose
+    document is `lines` according to the specification."""
     gfapy = _load_gfapy()
     signal.signal(signal.SIGVTALRM, _alarm)
     tv = "gfa2" if ver == "gfa1" else "gfa1"
@@ -167,6 +174,11 @@ def run_doc(ver, lines):
             return g
         return guard(f)
 
+    def the_gfa():
+        if live is not None:
+            return "ok", live
+        return guard(lambda: gfapy.Gfa(src, version=ver))
+
     res, val = load_check(src, ver)
     log["input"] = res if res == "ok" else res + " " + str(val)
     if res != "ok":
@@ -174,12 +186,23 @@ def run_doc(ver, lines):
 
     # line level, in the order gfapy lists the lines
     ln = [[["skip", []], ["skip", []], ["skip", []]] for _ in lines]
-    res, g = guard(lambda: gfapy.Gfa(src, version=ver))
+    res, g = the_gfa()
     if res == "ok":
         index = {}
         for j, t in enumerate(lines):
             index.setdefault(t, j)
-        objs = [(o, index.get(project.safe_str(o))) for o in g.lines]
+        first_of_group = {}          # a group written on several lines is one object: filed under its first line
+        for j, t in enumerate(lines):
+            f = t.split("\t")
+            if f[0] in ("O", "U") and len(f) > 1:
+                first_of_group.setdefault((f[0], f[1]), j)
+
+        def where(o):
+            j = index.get(project.safe_str(o))
+            if j is None and o.record_type in ("O", "U"):
+                j = first_of_group.get((o.record_type, str(o.get("name"))))
+            return j
+        objs = [(o, where(o)) for o in g.lines]
         for o, j in objs:
             if j is None or o.record_type in ("H", "#"):
                 continue
@@ -205,7 +228,7 @@ def run_doc(ver, lines):
     log["ln"] = ln
 
     # whole graph, text
-    res, g = guard(lambda: gfapy.Gfa(src, version=ver))
+    res, g = the_gfa()
     gs = ["skip", [], "skip"]
     bk = ["skip", [], "skip"]
     if res == "ok":
@@ -226,7 +249,7 @@ def run_doc(ver, lines):
     log["gs"], log["bk"] = gs, bk
 
     # whole graph, object
-    res, g = guard(lambda: gfapy.Gfa(src, version=ver))
+    res, g = the_gfa()
     go = ["skip", [], "skip"]
     if res == "ok":
         r, g2 = guard(getattr(g, to_o))
@@ -245,17 +268,75 @@ def run_doc(ver, lines):
     return log
 
 
+STAGE = 10_000_000       # log id of stage n of history case c: c + n * STAGE
+
+
+def apply_cmd(g, cmd):
+    """One edit of the live Gfa object, as the history says: op~target~value."""
+    op, target, value = cmd.split("~", 2)
+    if op == "LN":
+        g.segment(target).set("LN", int(value))
+    elif op == "seq":
+        g.segment(target).sequence = value
+    elif op == "slen":
+        g.segment(target).slen = int(value)
+    elif op == "pos":
+        g.line(target).pos = int(value)
+    elif op == "ov":
+        g.line(target).overlap = value
+    elif op == "aln":
+        g.line(target).alignment = value
+    elif op == "tag":
+        n, t, v = value.split(":", 2)
+        g.line(target).set(n, int(v) if t == "i" else v)
+    elif op == "rename":
+        g.segment(target).name = value
+    elif op == "readd":
+        g.line(target).disconnect()
+        g.add_line("\t".join(value.split("|")))
+    else:
+        raise tlc.MachineryError("unknown edit " + cmd)
+
+
+def run_history(case):
+    """doc0 @ cmd1 @ doc1 @ ...: one Gfa object, observed at every stage like a document."""
+    gfapy = _load_gfapy()
+    signal.signal(signal.SIGVTALRM, _alarm)
+    parts = case["text"].split("@")
+    docs, cmds = parts[0::2], parts[1::2]
+    ver = case["ver"]
+    logs = []
+    res, g = guard(lambda: gfapy.Gfa("\n".join(doc_lines(docs[0])), version=ver))
+    for n, d in enumerate(docs):
+        lines = doc_lines(d)
+        if res != "ok":
+            log = dict(ver=ver, inp=lines, input="edit or load refused: %s %s" % (res, g))
+        else:
+            log = run_doc(ver, lines, live=g)
+        log["id"], log["kind"], log["stage"] = case["id"] + n * STAGE, case["kind"], n
+        logs.append(log)
+        if res == "ok" and n < len(cmds):
+            live = g
+            res, val = guard(lambda: apply_cmd(live, cmds[n]))
+            if res != "ok":
+                g = "%s: %s" % (cmds[n], val)
+    return logs
+
+
 def run_case(case):
+    """-> list of logs (one; for a history one per stage)"""
+    if "@" in case["text"]:
+        return run_history(case)
     log = run_doc(case["ver"], doc_lines(case["text"]))
     log["id"], log["kind"] = case["id"], case["kind"]
-    return log
+    return [log]
 
 
 def run_cases(cases):
     if len(cases) < 40 or NCPU == 1:
-        return [run_case(c) for c in cases]
+        return [l for c in cases for l in run_case(c)]
     with MPool(processes=NCPU) as mp:
-        return mp.map(run_case, cases, chunksize=max(1, len(cases) // (NCPU * 16) + 1))
+        return [l for ls in mp.map(run_case, cases, chunksize=max(1, len(cases) // (NCPU * 16) + 1)) for l in ls]
 
 
 # --------------------------------------------------------------------------
@@ -320,8 +401,10 @@ def nontrivial(case):
 
 def focus_rt(case):
     """record type the case is about (last line of the enumerated document)"""
-    if case["kind"] == "H":      # hairpin documents are about the path, wherever its line stands
+    if case["kind"] in ("H", "N"):      # documents about the path, wherever its line stands
         return "P" if case["ver"] == "gfa1" else "O"
+    if case["kind"] == "T":             # histories: the edge (first line after the segments)
+        return [l for l in case["text"].split("@")[0].split(";") if l[0] != "S"][0].split("|")[0]
     return case["text"].split(";")[-1].split("|")[0] if case["kind"] != "X" else "X"
 
 
@@ -348,12 +431,14 @@ def group_violations(cases, rejects):
     groups = {}
     outside = 0
     for cid, pairs in rejects.items():
-        c = by_id[cid]
+        c = by_id[cid % STAGE]
+        stage = cid // STAGE
         if ("input", "outside") in pairs:
             outside += 1
             continue
         for api, clause in pairs:
-            key = (c["ver"], focus_rt(c), clause, API_CLASS.get(api, api))
+            # stage > 0 of a history: the same object converted again after an edit
+            key = (c["ver"], focus_rt(c), clause, API_CLASS.get(api, api) + ("-after-edit" if stage else ""))
             g = groups.setdefault(key, dict(n=0, apis=set(), ex=None))
             g["n"] += 1
             g["apis"].add(api)
@@ -362,16 +447,17 @@ def group_violations(cases, rejects):
 
     def order(item):
         (ver, rt, clause, ac), g = item
-        return (ac != "convert", CLAUSE_ORDER.index(clause) if clause in CLAUSE_ORDER else 99, ver, rt)
+        return (not ac.startswith("convert"), CLAUSE_ORDER.index(clause) if clause in CLAUSE_ORDER else 99, ver, rt, ac)
 
     viols = []
     for (ver, rt, clause, ac), g in sorted(groups.items(), key=order):
         c = g["ex"]
         viols.append(dict(family="convert", clauses=[clause], api="+".join(sorted(g["apis"])),
-                          input="\n".join(doc_lines(c["text"])), version=ver, record=rt, occurrences=g["n"],
-                          case=c["text"],
-                          what="%s %s record: clause %s rejected on %d enumerated documents (APIs %s); smallest: %s"
-                               % (ver, rt, clause, g["n"], ",".join(sorted(g["apis"])), c["text"])))
+                          input="\n".join(doc_lines(c["text"].split("@")[0])), version=ver, record=rt,
+                          occurrences=g["n"], case=c["text"],
+                          what="%s %s record%s: clause %s rejected on %d enumerated documents (APIs %s); smallest: %s"
+                               % (ver, rt, " (same Gfa object converted again after an edit)" if ac.endswith("-after-edit")
+                                  else "", clause, g["n"], ",".join(sorted(g["apis"])), c["text"])))
     return viols, outside
 
 
@@ -408,11 +494,18 @@ def check_c06(out, tier, seed):
                        "(direct/complement/alternating) x named x overlaps-given x %d CIGAR rotations; hairpin "
                        "documents: link A+A-/A-A+ x (a)symmetric CIGARs x 1-2 paths stating the overlap as written/"
                        "as complement/not x P lines after/before/around the L lines x alone/inside X+..X- x named, "
-                       "and the E line in its 4 forms x traversal +/-/implied x O before/after E; 7 catalogue "
-                       "documents (tags, header, F/G/U/custom, trace, integer-like names)"
+                       "and the E line in its 4 forms x traversal +/-/implied x O before/after E; nested groups: "
+                       "chain A-B-C-D x stored forms x inner group over 5 segment ranges written on 1-3 lines (cut at "
+                       "every item) x outer group walking it forwards/backwards x optional third level x outer line "
+                       "before/between/after the inner lines x O before/after E x edges listed/implied; histories on "
+                       "one Gfa object (convert, edit, convert, edit, convert): L/C/E documents x edits {segment "
+                       "length by LN/sequence/slen to 3 and 6, containment pos/overlap, alignment, tag, rename, edge "
+                       "or path re-added in another form} x 1-2 edits; 9 catalogue "
+                       "documents (tags, header, F/G/U/custom, trace, integer-like names, path through a containment-class edge)"
                        % (p["lens"], p["maxops"], p["unnamed"], 36, len(p["rot"])),
                 cases_by_kind=kinds, spec_states=dist, spec_laws_checked=dist, trace_states=states,
                 rejected_cases=len(rejects) - outside, inputs_refused_by_gfapy=len(refused),
+                history_stages_after_an_edit=sum(1 for l in logs if l.get("stage")),
                 outside_quantifier=outside,
                 t_enumerate=round(t1 - t0, 1), t_gfapy=round(t2 - t1, 1), t_validate=round(t3 - t2, 1))
     if refused:
@@ -425,7 +518,11 @@ def check_c06(out, tier, seed):
         "reversed container as long as both directions agree (c)",
         "E lines whose CIGAR does not span their intervals, GFA1 '*' overlaps and segments without length are "
         "outside the quantifier; a GFA2 document with '*'/trace alignments has no way back (round trip not required)",
-        "paths: nested groups, gaps inside O lines and O lines starting/ending with an edge are not enumerated",
+        "O groups: lines with the same identifier are one group (items concatenated in line order), an item naming "
+        "another O group stands for that group's walk (backwards and inverted for `-`); gaps inside O lines and "
+        "groups starting/ending with an edge are not enumerated",
+        "histories: the document after an edit is the one MC_Convert writes for the edit (the command is issued on "
+        "the live object by the harness); every stage is judged like a freshly given document",
         "foreign exceptions are attributed to C07 (other_property_rejections)",
     ]
 
@@ -439,29 +536,35 @@ PROPS = {"C06": (check_c06, "exploration")}
 def judge_texts(docs, name):
     """docs: list of (ver, text-with-|-and-;).  Returns list of sorted (api, clause) lists."""
     cases = [dict(id=i + 1, kind="R", ver=v, text=t) for i, (v, t) in enumerate(docs)]
-    logs = [run_case(c) for c in cases]
+    logs = [l for c in cases for l in run_case(c)]
     rej, _ = validate(logs, name)
-    return logs, [rej.get(c["id"], []) for c in cases]
+    return logs, [rej.get(l["id"], []) for l in logs]
 
 
 def replay(prop, v, path):
     text = v.get("case") or ";".join("|".join(l.split("\t")) for l in v["input"].split("\n"))
     logs, res = judge_texts([(v["version"], text)], "convert-replay")
-    log = logs[0]
-    print("input (%s):" % v["version"])
-    for l in log["inp"]:
-        print("   ", l)
-    if log["input"] != "ok":
-        print("input refused:", log["input"])
-        return 2
-    for k, lab in (("gs", "whole graph, text"), ("go", "whole graph, object"), ("bk", "converted back")):
-        print("%s: %s, target loads at vlevel 3: %s" % (lab, log[k][0], log[k][2]))
-        for l in log[k][1]:
+    cmds = text.split("@")[1::2]
+    hit = False
+    for n, (log, rj) in enumerate(zip(logs, res)):
+        if n:
+            print("--- edit of the same Gfa object: %s; document now:" % cmds[n - 1])
+        else:
+            print("input (%s):" % v["version"])
+        for l in log["inp"]:
             print("   ", l)
-    for j, e in enumerate(log["ln"]):
-        print("line %d: to_s=%s %s | to=%s %s | view=%s %s" % (j + 1, e[0][0], e[0][1], e[1][0], e[1][1], e[2][0], e[2][1]))
-    print("REJECT", res[0])
-    if any(c in v["clauses"] for _, c in res[0]):
+        if log["input"] != "ok":
+            print("input refused:", log["input"])
+            return 2
+        for k, lab in (("gs", "whole graph, text"), ("go", "whole graph, object"), ("bk", "converted back")):
+            print("%s: %s, target loads at vlevel 3: %s" % (lab, log[k][0], log[k][2]))
+            for l in log[k][1]:
+                print("   ", l)
+        for j, e in enumerate(log["ln"]):
+            print("line %d: to_s=%s %s | to=%s %s | view=%s %s" % (j + 1, e[0][0], e[0][1], e[1][0], e[1][1], e[2][0], e[2][1]))
+        print("REJECT", rj)
+        hit = hit or any(c in v["clauses"] for _, c in rj)
+    if hit:
         print("VIOLATION property=%s replay=%s" % (prop, path))
         return 1
     print("replay passes")
@@ -475,9 +578,15 @@ def selftest():
             ("gfa1", "S|A|ACGTAC;S|B|*|LN:i:3;C|A|+|B|+|2|2M1I|ID:Z:c1"),
             ("gfa2", "S|A|6|ACGTAC;S|B|5|*;E|e1|A+|B+|3|6$|0|3|3M"),   # pure match: right on the pinned tree too
             ("gfa1", "S|A|ACGT;L|A|+|A|-|2M1I|ID:Z:hp;P|p|A+,A-|1D2M"),    # hairpin read as complement
-            ("gfa2", "S|A|4|ACGT;E|hp|A+|A-|2|4$|1|4$|2M1I;O|p|A+ hp- A-")]
+            ("gfa2", "S|A|4|ACGT;E|hp|A+|A-|2|4$|1|4$|2M1I;O|p|A+ hp- A-"),
+            # a nested group whose second line arrives after the group which lists it
+            ("gfa2", "S|A|4|ACGT;S|B|5|*;S|C|6|*;S|D|6|*;E|e1|A+|B+|2|4$|0|3|2M1I;E|e2|B+|C-|2|5$|4|6$|1M1D1M;"
+                     "E|e3|C-|D+|0|2|0|2|2M;O|inner|B+ C-;O|outer|A+ inner+;O|inner|D+"),
+            # a history: stage 0, LN of A set to 6 on the same object, stage 1
+            ("gfa1", "S|A|*|LN:i:5;S|B|*|LN:i:4;L|A|+|B|+|2M1I|ID:Z:l1@LN~A~6@"
+                     "S|A|*|LN:i:6;S|B|*|LN:i:4;L|A|+|B|+|2M1I|ID:Z:l1")]
     cases = [dict(id=i + 1, kind="T", ver=v, text=t) for i, (v, t) in enumerate(docs)]
-    base = [run_case(c) for c in cases]
+    base = [l for c in cases for l in run_case(c)]      # the history gives two logs: base[6], base[7]
 
     def edit(log, api, fn):
         l = json.loads(json.dumps(log))
@@ -513,6 +622,12 @@ def selftest():
          "gs", "gfa_s"),
         (4, "traversal back flipped", "C06.roundtrip", lambda x: x.replace("hp-", "hp+") if x.startswith("O") else x,
          "bk", "roundtrip"),
+        # nested group: the path of the outer group stops where the first line of the inner group stopped
+        (5, "nested path truncated", "C06.path",
+         lambda x: "P\touter\tA+,B+,C-\t2M1I,1M1D1M" if x.startswith("P\touter") else x, "gs", "gfa_s"),
+        # history: after LN of A became 6 the E line still has the intervals of length 5
+        (7, "stale length after edit", "C06.interval",
+         lambda x: x.replace("\t4\t6$\t", "\t3\t5$\t") if x.startswith("E") else x, "gs", "gfa_s"),
     ]
     logs = list(base)
     for n, (ci, what, clause, fn, key, api) in enumerate(muts):
